@@ -267,16 +267,43 @@ def _impl(c):
     return interp.impl_case(c)
 
 
+_NEAR = {}
+
+
+def near_miss_names(rng, k):
+    """unknown function names that sit next to known ones: a documented / registered name with a dotted or plain suffix, a
+    prefix, a letter dropped or doubled, another case - minus whatever is itself documented, registered or a host function"""
+    if 'known' not in _NEAR:
+        from hotxlfp import formulas
+        root = os.environ.get('VERIF_SNAPSHOT', '/repo')
+        doc = re.findall(r'^[-*][ \t]+`?([A-Z][A-Z0-9_.]*)`?[ \t]*$', open(os.path.join(root, 'SUPPORTED_FORMULAS.md')).read(), re.M)
+        _NEAR['known'] = set(doc) | set(formulas.supported()) | set(HOST['funs'])
+        _NEAR['base'] = sorted(set(doc) | set(formulas.supported()))
+    known, base = _NEAR['known'], _NEAR['base']
+    out = []
+    while len(out) < k:
+        b = rng.choice(base)
+        o = rng.choice(base)
+        v = rng.choice([b + '.NOSUCH', b + '.X', b + '.' + o, b + '.' + o.split('.')[-1], b + 'X', b + '_', b + '2', 'X' + b, b[:-1], b + b[-1],
+                        b.lower(), b.title(), b.split('.')[0] + '.Q', b.replace('.', '_'), b.replace('.', ''), b + '.'])
+        if v in known or not re.match(r'[A-Za-z][A-Za-z_0-9.]+\Z', v) or refgen.CELL_SHAPED.match(v):
+            continue
+        out.append(v)
+    return out
+
+
 def unknown_items(rng, n, depth):
     items = []
     g = refgen.Gen(rng, HOST)
+    near = near_miss_names(rng, 400)
     for _ in range(n):
         tree = g.any(rng.randint(1, depth))
         pos = refgen.positions(tree)
         path, sub = rng.choice(pos)
         numeric = sub[0] in ('num', 'neg', 'add') or (path and path[-1] in (1, 2) and len(path) >= 1 and path[0] != 2)
         if rng.random() < 0.7:
-            new = ('call', rng.choice(['NOPE', 'Sum', 'sum', 'UNKNOWN.FN', 'FOO_BAR', 'f', 'Xyz9']), [g.any(1) for _ in range(rng.randint(0, 2))])
+            nm = rng.choice(near) if rng.random() < 0.5 else rng.choice(['NOPE', 'Sum', 'sum', 'UNKNOWN.FN', 'FOO_BAR', 'f', 'Xyz9'])
+            new = ('call', nm, [g.any(1) for _ in range(rng.randint(0, 2))])
         else:
             new = ('var', rng.choice(['nope', 'Alpha', 'un_set', 'zz']))
         t2 = refgen.replace(tree, path, new)
